@@ -14,9 +14,10 @@ import CalVerif.Prim.Res
       hook `verif::sst_from_stream` → `sstFromStream`
 
     Text is a list of Unicode scalar values (`List Nat`). `decode_to` hands every *segment*
-    (the characters of one fragment) separately to encoding_rs; `decodeUtf16` is what
-    `UTF_16LE.decode_without_bom_handling` does to the code units of one segment (pairs combined,
-    unpaired surrogates → U+FFFD). encoding_rs itself is trusted, not modelled further.
+    (the characters of one fragment) separately to encoding_rs; `read_dbcs` gathers the units of all segments
+    (`widen_to`) and decodes them once. `decodeUtf16` is what `UTF_16LE.decode_without_bom_handling` does to a
+    sequence of code units (pairs combined, unpaired surrogates → U+FFFD). encoding_rs itself is trusted, not
+    modelled further.
 
     A `Record`'s `cont: Option<Vec<&[u8]>>` is a plain `List Bytes` here: `None` and `Some(vec![])`
     behave identically (`continue_record` returns `false` for both) and `RecordIter` never produces `Some(vec![])`. -/
@@ -90,15 +91,18 @@ def decodeTo (stream : Bytes) (len : Nat) (highByte : Bool) : List Nat × Nat ×
 
 def flagHigh (b : UInt8) : Bool := b.toNat % 2 = 1
 
-/-- `read_dbcs`: `len` characters still owed, `highByte` the packing of the current segment.
+/-- the loop of `read_dbcs`: `len` characters still owed, `highByte` the packing of the current segment.
     One loop iteration per call; the recursion is structural in `cont` (every further iteration
     consumes one CONTINUE fragment, whose first byte is a fresh flag byte; an empty one ends the read with `EoStream`).
-    The text pushed onto `s` by this iteration precedes what the later iterations push. -/
+    Returns the UTF-16 code units gathered over all the fragments (`widen_to` appends them to `wide`, 8-bit
+    characters zero-extended): they are decoded once, after the loop (`readRichAt`), so that a surrogate pair cut
+    by the end of a record is still one character (since the fix for finding D43; before it every segment was
+    decoded on its own). -/
 def readDbcs (len : Nat) (highByte : Bool) (data : Bytes) (cont : List Bytes) : Res (List Nat × Rd) :=
   if len = 0 then .ok ([], ⟨data, cont⟩)
   else
     let d := decodeTo data len highByte
-    let txt := decodeUtf16 d.1
+    let txt := d.1
     let data' := data.drop d.2.2
     if len - d.2.1 = 0 then .ok (txt, ⟨data', cont⟩)
     else
@@ -144,7 +148,8 @@ def readRichAt (r : Rd) : Res (List Nat × Rd) :=
         let cbExt := if ext then i32AsUsize (u32 data) else 0
         let data := if ext then data.drop 4 else data
         do
-          let (s, r) ← readDbcs cch highByte data r.cont
+          let (us, r) ← readDbcs cch highByte data r.cont
+          let s := decodeUtf16 us   -- `encoding.decode_wide(&wide)` at the end of `read_dbcs`
           let r ← skip (cRun * 4) r.data r.cont
           let r ← skip cbExt r.data r.cont
           pure (s, r)
